@@ -332,7 +332,13 @@ def wrappers(ctx):
     # reading a file: open / read / close on the file object, spooling it into an in-memory buffer (io.BytesIO, shutil.copyfileobj, getvalue) -
     # the exceptions these can raise are those of file access, which the property leaves to the caller
     def _file_access(c):
-      return c in ('open', 'io.open', 'io.BytesIO', 'shutil.copyfileobj') or (c is not None and c.split('.')[-1] in ('read', 'close', 'getvalue', 'readinto', 'seek') and '.' in c)
+      if c is None:
+        return False
+      return c in ('open', 'io.open', 'io.BytesIO', 'shutil.copyfileobj') or (c.split('.')[-1] in ('read', 'close', 'getvalue', 'readinto', 'seek', 'append') and '.' in c)
+    # the blocks read are put together with b''.join(...): a call on a bytes literal, which cannot fail on a list of bytes
+    def _joins_bytes(call):
+      return isinstance(call.func, ast.Attribute) and call.func.attr == 'join' and isinstance(call.func.value, ast.Constant) and isinstance(call.func.value.value, bytes)
+    calls = [dotted(c.func) if not _joins_bytes(c) else 'open' for c in U.calls_in(fi.node)]
     extra = [c for c in calls if c != target and not _file_access(c) and not _file_reader(c)]
     raises = [n for n in ast.walk(fi.node) if isinstance(n, ast.Raise)]
     ok = target in calls and not extra and not raises
